@@ -365,3 +365,17 @@ fix: $D
     rewrite.parse(&TypeScript::Tsx).ok()?.compute(&mut ctx)
   }
 }
+
+#[cfg(feature = "verif-hooks")]
+pub mod verif_hooks {
+  use ast_grep_core::source::Edit;
+  use ast_grep_core::Doc;
+  /// the rewriter's private `make_edit` (overlap skipping splice relative to `offset`)
+  pub fn make_edit<D: Doc>(
+    old_content: &super::Bytes<D>,
+    edits: Vec<Edit<D::Source>>,
+    offset: usize,
+  ) -> Vec<<<D as Doc>::Source as ast_grep_core::source::Content>::Underlying> {
+    super::make_edit::<D>(old_content, edits, offset)
+  }
+}
